@@ -14,7 +14,7 @@ def forge_vectors(c, maxn, ets, dirs):
     d = c.specdir()
     cfg = "MC_Forge_run_%d.cfg" % maxn
     with open(os.path.join(d, cfg), "w") as f:
-        f.write("SPECIFICATION FSpec\nCONSTANTS\n  Replica = {\"A\"}\n  NBug = 1\n  Author = {\"u1\"}\n  MaxHop = 1000000\n"
+        f.write("SPECIFICATION FSpec\nCONSTANTS\n  Replica = {\"A\"}\n  Remote = {\"origin\"}\n  NBug = 1\n  Author = {\"u1\"}\n  MaxHop = 1000000\n"
                 "  MaxN = %d\n  Far = 1000005\n  RankDirs <- %s\n  EtChoices <- %s\nINVARIANTS OkImpliesCausal Emit\nCHECK_DEADLOCK FALSE\n" % (maxn, dirs, ets))
     r = c.tlc_model("MC_Forge", cfg, timeout=2400, label="forged histories <= %d commits, clocks %s" % (maxn, ets))
     vecs = [v for v in r.printed() if "dag" in v]
@@ -27,7 +27,7 @@ def octopus_vectors(c):
     d = c.specdir()
     cfg = "MC_Forge_octo.cfg"
     with open(os.path.join(d, cfg), "w") as f:
-        f.write("SPECIFICATION OSpec\nCONSTANTS\n  Replica = {\"A\"}\n  NBug = 1\n  Author = {\"u1\"}\n  MaxHop = 1000000\n"
+        f.write("SPECIFICATION OSpec\nCONSTANTS\n  Replica = {\"A\"}\n  Remote = {\"origin\"}\n  NBug = 1\n  Author = {\"u1\"}\n  MaxHop = 1000000\n"
                 "  MaxN = 6\n  Far = 1000005\n  RankDirs <- OneDir\n  EtChoices <- EtSmall\nINVARIANTS OkImpliesCausal Emit\nCHECK_DEADLOCK FALSE\n")
     r = c.tlc_model("MC_Forge", cfg, timeout=600, label="forged histories: a commit joining 2-4 concurrent children")
     vecs = [v for v in r.printed() if "dag" in v]
